@@ -1169,6 +1169,7 @@ sexp sexp_apply (sexp ctx, sexp proc, sexp args) {
   unsigned char *ip;
   sexp bc, cp, *stack = sexp_stack_data(sexp_context_stack(ctx)), tmp;
   sexp_sint_t i, j, k, fp, top = sexp_stack_top(sexp_context_stack(ctx));
+  sexp_sint_t entry_top = top;
 #if SEXP_USE_GREEN_THREADS
   sexp root_thread = ctx;
   sexp_sint_t fuel = sexp_context_refuel(ctx);
@@ -2434,7 +2435,9 @@ sexp sexp_apply (sexp ctx, sexp proc, sexp args) {
 #endif
   sexp_gc_release3(ctx);
   tmp1 = _ARG1;
-  sexp_context_top(ctx) = --top;
+  /* an error (out of stack included) leaves the loop with the frames of
+     the failed computation still on the stack: drop them as well */
+  sexp_context_top(ctx) = sexp_exceptionp(tmp1) ? entry_top : --top;
   return tmp1;
 }
 
